@@ -187,5 +187,6 @@ func runC16(e *Env, p *Plan) {
 		}
 	}
 	w.CheckOwnResults("C16.forward-calls-intact", true)
+	w.CheckWireWellFormed("C16.wire")
 	w.Teardown()
 }
